@@ -1177,6 +1177,12 @@ def c19(req, ra, ctr):
             fails.append('varargs-kept: *args still in %s' % core.fmt_params(R))
     for k, v in bound.items():
         q = Rn.get(k)
+        if kinds.get(k) in ('vp', 'vk'):
+            # named like *args / **kwargs themselves: shown only once that parameter is gone (exactness is judged above)
+            ctr['c19:star-named-keyword'] += 1
+            if q is not None and (q[1] not in ('ko', kinds[k]) or (q[1] == 'ko' and q[2] != v)):
+                fails.append('bound-keyword: %s=%s shows as %s in %s' % (k, v, q, core.fmt_params(R)))
+            continue
         if q is None or q[1] != 'ko' or q[2] != v:
             fails.append('bound-keyword: %s=%s shows as %s in %s' % (k, v, q, core.fmt_params(R)))
     src = {core.NAMES.name(k): list(v) for k, v in ra[2]}
